@@ -246,7 +246,6 @@ theorem length_flatMap_fixed {α : Type} (f : α → Bytes) (w : Nat) : ∀ (l :
 
 /-! ### fan-out: cumulative bucket counts are "number of names with first byte ≤ b" -/
 
-def countLe (es : List IdxEntry) (b : Nat) : Nat := (es.filter (fun e => decide (firstByte e.name ≤ b))).length
 def countLt (es : List IdxEntry) (b : Nat) : Nat := (es.filter (fun e => decide (firstByte e.name < b))).length
 
 theorem countLe_succ (es : List IdxEntry) (b : Nat) :
@@ -351,8 +350,6 @@ theorem countLt_iff : ∀ (es : List IdxEntry) (v i : Nat) (hi : i < es.length),
         omega
 
 /-! ### the v2 file, table by table -/
-
-def Sorted (es : List IdxEntry) : Prop := es.Pairwise (fun a b => bytesLt a.name b.name = true)
 
 theorem Sorted.firstBytes {es : List IdxEntry} (h : Sorted es) :
     es.Pairwise (fun a b => firstByte a.name ≤ firstByte b.name) :=
@@ -622,22 +619,39 @@ theorem offsetAt_v2 (x : Idx) (H : Bytes → Bytes) (es : List IdxEntry) (cs : B
     rw [slice_skip' _ _ (4 * es.length) (i * 4) _ _ hC (by omega)]
     rw [slice_within _ _ _ _ (by rw [hO]; omega)]
     exact ofsWords_slice es 0 i hi
-  unfold Idx.offsetAt Idx.largeOff Idx.ofsOff Idx.crcOff
-  rw [hx.version, hx.hs, hx.c, hx.n, hx.nameOff]
-  simp only [show ¬ (2 : Nat) = 1 by decide, if_false, beAt, hword]
+  have hOO : x.ofsOff = Gen.Pack.v2NameAt + hs * es.length + Gen.Pack.v2CrcWidth * es.length := by
+    unfold Idx.ofsOff Idx.crcOff
+    rw [hx.hs, hx.n, hx.nameOff]
+  have hLO : x.largeOff = Gen.Pack.v2NameAt + hs * es.length + Gen.Pack.v2CrcWidth * es.length
+      + Gen.Pack.v2OfsWidth * es.length := by
+    unfold Idx.largeOff
+    rw [hOO, hx.n]
+  unfold Idx.offsetAt
+  rw [hx.version, if_neg (show ¬ (2 : Nat) = 1 by decide)]
+  unfold Idx.offsetAtV2
+  rw [hx.c, hOO]
   by_cases hsmall : es[i].offset < Gen.Pack.largeFlag
   · have hlt : es[i].offset < 256 ^ 4 := by simp only [Gen.Pack.largeFlag] at hsmall; omega
-    simp only [hsmall, if_true, beBytes_length, beVal_beBytes 4 _ hlt]
+    have h4 : beAt 4 (v2File H es cs) (Gen.Pack.v2NameAt + hs * es.length + Gen.Pack.v2CrcWidth * es.length
+        + i * Gen.Pack.ofsEntryWidth) = some es[i].offset := by
+      unfold beAt
+      rw [hword, if_pos hsmall, beBytes_length, if_pos rfl, beVal_beBytes 4 _ hlt]
+    rw [h4]
+    simp only [hsmall, if_true]
   · have hK := countLarge_le (es.take i)
     have hKi : (es.take i).length ≤ i := by simp
     have hKlt := countLarge_take_lt es i hi hsmall
     have hv : Gen.Pack.largeFlag + (0 + countLarge (es.take i)) < 256 ^ 4 := by
       simp only [Gen.Pack.largeFlag]; omega
     have hge : ¬ Gen.Pack.largeFlag + (0 + countLarge (es.take i)) < Gen.Pack.largeFlag := by omega
-    simp only [hsmall, if_false, beBytes_length, if_true, beVal_beBytes 4 _ hv, hge]
-    have hsub : Gen.Pack.largeFlag + (0 + countLarge (es.take i)) - Gen.Pack.largeFlag = countLarge (es.take i) := by
-      omega
-    rw [hsub]
+    have h4 : beAt 4 (v2File H es cs) (Gen.Pack.v2NameAt + hs * es.length + Gen.Pack.v2CrcWidth * es.length
+        + i * Gen.Pack.ofsEntryWidth) = some (Gen.Pack.largeFlag + (0 + countLarge (es.take i))) := by
+      unfold beAt
+      rw [hword, if_neg hsmall, beBytes_length, if_pos rfl, beVal_beBytes 4 _ hv]
+    rw [h4]
+    simp only [hge, if_false]
+    have hsub : (Gen.Pack.largeFlag + (0 + countLarge (es.take i))) % Gen.Pack.largeFlag = countLarge (es.take i) := by
+      simp only [Gen.Pack.largeFlag]; omega
     have hbig : slice (v2File H es cs) (Gen.Pack.v2NameAt + hs * es.length + Gen.Pack.v2CrcWidth * es.length
         + Gen.Pack.v2OfsWidth * es.length + countLarge (es.take i) * Gen.Pack.largeEntryWidth) 8
         = beBytes 8 es[i].offset := by
@@ -653,6 +667,86 @@ theorem offsetAt_v2 (x : Idx) (H : Bytes → Bytes) (es : List IdxEntry) (cs : B
       rw [slice_within _ _ _ _ (by rw [hL]; omega)]
       exact largeWords_slice es i hi hsmall
     have h64 : es[i].offset < 256 ^ 8 := hoff _ (List.getElem_mem hi)
-    simp only [hbig, beBytes_length, if_true, beVal_beBytes 8 _ h64]
+    have h8 : beAt 8 (v2File H es cs) (Gen.Pack.v2NameAt + hs * es.length + Gen.Pack.v2CrcWidth * es.length
+        + Gen.Pack.v2OfsWidth * es.length + countLarge (es.take i) * Gen.Pack.largeEntryWidth) = some es[i].offset := by
+      unfold beAt
+      rw [hbig, beBytes_length, if_pos rfl, beVal_beBytes 8 _ h64]
+    have hlarge : ∀ v, v % Gen.Pack.largeFlag = countLarge (es.take i) →
+        x.largeOffsetAt v = .ok es[i].offset := by
+      intro v hv'
+      unfold Idx.largeOffsetAt
+      rw [hv', hx.c, hLO, h8]
+    exact hlarge _ hsub
+
+theorem countLt_le_countLe (es : List IdxEntry) (b : Nat) : countLt es b ≤ countLe es b := by
+  unfold countLt countLe
+  induction es with
+  | nil => simp
+  | cons e es ih =>
+    simp only [List.filter_cons]
+    by_cases h1 : firstByte e.name < b
+    · have d1 : decide (firstByte e.name < b) = true := decide_eq_true h1
+      have d2 : decide (firstByte e.name ≤ b) = true := decide_eq_true (by omega)
+      simp only [d1, d2, if_true, List.length_cons]; omega
+    · have d1 : decide (firstByte e.name < b) = false := decide_eq_false h1
+      simp only [d1, Bool.false_eq_true, if_false]
+      split
+      · simp only [List.length_cons]; omega
+      · exact ih
+
+/-- In a strictly sorted list the first entry with a given name is the only one. -/
+theorem find_sorted : ∀ (es : List IdxEntry) (i : Nat) (hi : i < es.length), Sorted es →
+    es.find? (fun e => decide (e.name = es[i].name)) = some es[i] := by
+  intro es
+  induction es with
+  | nil => intro i hi; simp at hi
+  | cons e es ih =>
+    intro i hi hs
+    have hp := List.pairwise_cons.mp hs
+    cases i with
+    | zero => simp
+    | succ i =>
+      have hi' : i < es.length := by simpa using hi
+      simp only [List.getElem_cons_succ]
+      have hne : e.name ≠ es[i].name := bytesLt_ne (hp.1 es[i] (List.getElem_mem hi'))
+      rw [List.find?_cons]
+      have d : decide (e.name = es[i].name) = false := decide_eq_false hne
+      rw [d]
+      exact ih i hi' hp.2
+
+/-- The lookup over the loaded file, given what the bisection returns. -/
+theorem fan_get (es : List IdxEntry) (b : Nat) (hb : b < 256) :
+    ((List.range' 0 256).map (cumul es))[b]? = some (cumul es b) := by
+  simp [List.getElem?_map, List.getElem?_range', hb]
+
+/-- The writer accepts well-formed input and writes `v2File`. -/
+theorem write_v2_ok (H : Bytes → Bytes) (es : List IdxEntry) (cs : Bytes) (hs : Nat)
+    (hhs : hs = 20 ∨ hs = 32) (hcs : cs.length = hs) (hnames : ∀ e ∈ es, e.name.length = hs)
+    (hfield : ∀ e ∈ es, e.crc < 2 ^ 32 ∧ e.offset < 2 ^ 64) :
+    writeIndexV2 H es cs = .ok (v2File H es cs) := by
+  unfold writeIndexV2
+  have h1 : ¬ (cs.length ≠ Gen.Pack.v2CsLenA ∧ cs.length ≠ Gen.Pack.v2CsLenB) := by
+    simp only [Gen.Pack.v2CsLenA, Gen.Pack.v2CsLenB]; omega
+  have h2 : es.any (fun e => e.name.isEmpty) = false := by
+    rw [List.any_eq_false]
+    intro e he
+    have := hnames e he
+    cases hn' : e.name with
+    | nil => rw [hn'] at this; simp at this; omega
+    | cons _ _ => simp
+  have h3 : es.any (fun e => decide (e.name.length ≠ v2HashSize es cs)) = false := by
+    rw [List.any_eq_false]
+    intro e he
+    have hv : v2HashSize es cs = hs := by
+      cases es with
+      | nil => exact hcs
+      | cons a _ => exact hnames a (List.mem_cons_self)
+    simp [hv, hnames e he]
+  have h4 : structOk es = true := by
+    unfold structOk
+    rw [List.all_eq_true]
+    intro e he
+    simpa using hfield e he
+  simp only [h1, if_false, h2, Bool.false_eq_true, h3, h4, not_true_eq_false, v2File]
 
 end Dulwich.PackIndex
